@@ -438,6 +438,11 @@ pub fn generate(ctx: &mut Ctx) {
         let pl = rng.pick(&payloads).clone();
         ctx.case(&format!("drop {} {}", filters(&p, &b, a.as_deref()), pl));
     }
+    // provider lists of the largest admitted size and just around it (one case each: the lines are long)
+    for k in [16379u32, 16380, 16381] {
+        let provs: Vec<String> = (1..=k).map(|i| format!("N{}", i)).collect();
+        ctx.case(&format!("json {{slurmVersion:N2,validationOutputFilters:{{prefixFilters:[],bgpsecFilters:[],aspaFilters:[]}},locallyAddedAssertions:{{prefixAssertions:[],bgpsecAssertions:[],aspaAssertions:[{{customerAsn:N64496,providerAsns:[{}]}}]}}}}", provs.join(",")));
+    }
     // JSON: valid files, then structure-aware mutations
     for _ in 0..(if thorough { 30_000 } else { 4_000 }) {
         let f = random_file(&mut rng);
